@@ -89,7 +89,8 @@ def describe7(t):
     fl = lambda f: "|".join(n for b, n in ((1, "SYN"), (2, "ACK"), (4, "FIN"), (8, "RST")) if f & b) or "-"
     reads = [e for e in ev if e[0] == 4]
     return {"stack": "yamux session with tapped frames (W writes, B reads; every W->B frame is handed over by the scheduler)",
-            "writer_is": "client (odd stream ids)" if cfg == 0 else "server (even stream ids)",
+            "writer_is": "client (odd stream ids)" if cfg % 10 == 0 else "server (even stream ids)",
+            "aborted": cfg >= 10,
             "streams": [{"sid": s["sid"], "writes": s["writes"], "total": sum(s["writes"]), "end": END7.get(s["end"], s["end"]), "writer_ok": s["wok"]} for s in streams],
             "frames_W_to_B": sum(1 for e in ev if e[0] == 1), "data_frames_W_to_B": sum(1 for e in ev if e[0] == 1 and e[2] == 0),
             "frames_B_to_W": sum(1 for e in ev if e[0] == 2),
@@ -144,7 +145,7 @@ def what(tag, toks, d):
         try:
             cfg, streams, ev = parse7(toks)
             return "yamux session (writer is the %s): streams %s, %d tapped frames, %d reads: the frames / reader observations violate byte fidelity or flow control" % (
-                "client" if cfg == 0 else "server", ", ".join("%d: writes %s then %s" % (s["sid"], s["writes"], END7.get(s["end"], s["end"])) for s in streams),
+                "client" if cfg % 10 == 0 else "server", ", ".join("%d: writes %s then %s" % (s["sid"], s["writes"], END7.get(s["end"], s["end"])) for s in streams),
                 sum(1 for e in ev if e[0] in (1, 2)), sum(1 for e in ev if e[0] == 4))
         except Exception:
             return "yamux session (stack 7): malformed case line"
